@@ -101,7 +101,8 @@ def innerSubtrees (hs : List BDD) : List BDD :=
 /-- saturating machine integers as used by `sat_count` (`Saturating<u64>` / `<u128>`) -/
 def satCountSat (bits vars : Nat) (f : BDD) : Nat :=
   let mx := 2 ^ bits - 1
-  let shl (a k : Nat) : Nat := if k ≥ bits then mx else (a <<< k) % 2 ^ bits
+  -- `Saturating::shl`: 0 stays 0; otherwise the marker iff a one bit would be shifted out
+  let shl (a k : Nat) : Nat := if a = 0 then 0 else if a * 2 ^ k < 2 ^ bits then a * 2 ^ k else mx
   let add (a b : Nat) : Nat := min (a + b) mx
   let shr1 (a : Nat) : Nat := if a = mx then mx else a >>> 1
   let tv := shl 1 vars
